@@ -5,6 +5,7 @@ package tlive
 
 import (
 	"fmt"
+	"math"
 	"runtime"
 	"sort"
 	"sync"
@@ -79,6 +80,12 @@ type Fut struct {
 
 // wallOnly: the instant carries no monotonic clock reading. time.Time drops it when the wall seconds leave the packed
 // range (deadlines beyond the year 2157: a "practically never" timeout); Sub and After then compare on the wall clock.
+// NeverUs: a timeout 3 s below the largest time.Duration, in microseconds (3 s: the call happens within the first
+// three seconds of its scenario, so call time + timeout still fits an int64 on the clock of the case)
+const NeverUs = (math.MaxInt64 - 3_000_000_000) / 1000
+
+var procStart = time.Now()
+
 func wallOnly(t time.Time) bool { return t == t.Round(0) }
 
 // relFire puts fu.fireT on the clock of the case (monotonic ns since base). A wall-only deadline is converted through
@@ -363,6 +370,15 @@ func Run(sc Scenario, seed uint64) Result {
 	}
 	timeout.VerifSetPool(idle, sc.MaxW)
 
+	for _, a := range sc.Acts {
+		if a.Op == "call" && a.DUs >= NeverUs {
+			// arithmetic on "age of the process + timeout" must have a chance to leave the int64 range
+			if w := 4*time.Second - time.Since(procStart); w > 0 {
+				time.Sleep(w)
+			}
+			break
+		}
+	}
 	r := &runner{sc: sc, base: time.Now()}
 	r.futs = make([]Fut, sc.NFut)
 	r.handles = make([]timeout.Future, sc.NFut)
